@@ -1,7 +1,7 @@
-\* C18 thorough (replay 1, sampled-trace filter on): 2 threads, <= 2 spans, <= 3 frames, 1 task, nesting <= 3, headers sampled/unsampled (same trace), other trace, invalid (span id only); every transition replayed.
+\* C18 thorough (replay 1; sampled-trace filter on): 1 thread, <= 2 spans, <= 3 frames, 1 task, nesting <= 3, headers sampled/unsampled (same trace), other trace, invalid (span id only), all forms; every transition replayed.
 SPECIFICATION Spec
 CONSTANTS
-    NThreads = 2
+    NThreads = 1
     MaxSpans = 2
     MaxFrames = 3
     MaxTasks = 1
